@@ -7,6 +7,7 @@ import (
 	"go/types"
 	"math"
 	"strings"
+	"time"
 
 	"golang.org/x/tools/go/ssa"
 
@@ -114,7 +115,15 @@ type Shared struct {
 	Known     []KnownRegion
 	Bounds    map[string]int
 	NowBase   int64
+	Deadline  time.Time
+	FreshMs   int
 	fnInfos   syncMap
+}
+
+// Clone returns a copy with its own function-info cache.
+func (sh *Shared) Clone() *Shared {
+	return &Shared{Prog: sh.Prog, Pkgs: sh.Pkgs, InitAllow: sh.InitAllow, Noop: sh.Noop, Subst: sh.Subst, UFs: sh.UFs, RtErrType: sh.RtErrType,
+		FreshMs: sh.FreshMs, VerifT: sh.VerifT, LoopBound: sh.LoopBound, InstrBudget: sh.InstrBudget, Known: sh.Known, Bounds: sh.Bounds, NowBase: sh.NowBase, Deadline: sh.Deadline}
 }
 
 type Exec struct {
@@ -163,6 +172,9 @@ type Exec struct {
 	onces     map[*Value]bool
 	lastPanic string
 	NowBase   int64
+	inInit    int
+	prov      map[*term.T]provRec
+	nFresh    int
 }
 
 type mutexState struct {
@@ -499,7 +511,9 @@ func (ex *Exec) ensureInit(pkg *ssa.Package) {
 	if f := pkg.Func("init"); f != nil {
 		saved := ex.cur
 		ex.cur = nil
+		ex.inInit++
 		ex.callFn(nil, f, nil)
+		ex.inInit--
 		ex.cur = saved
 	}
 }
@@ -565,24 +579,98 @@ func (ex *Exec) store(p Value, v Value) {
 	panic(ex.unsupported(fmt.Sprintf("store through %T", p)))
 }
 
+type provRec struct {
+	idx   *term.T
+	table []Value
+}
+
 func (ex *Exec) symLoad(base []Value, idx *term.T) Value {
-	tb := ex.tb
 	if len(base) == 0 {
 		panic(pathAbort{"engine", "symLoad on empty base"})
 	}
-	first, ok := base[0].(*term.T)
-	if !ok {
+	if _, ok := base[0].(*term.T); !ok {
 		// aggregate or non-scalar elements: fork on the index
 		i := ex.concretize(idx, "index of non-scalar element")
 		return copyVal(base[i])
 	}
-	// a contiguous table of constants: build a balanced ite tree over index bits
-	res := base[len(base)-1].(*term.T)
-	_ = first
-	for i := len(base) - 2; i >= 0; i-- {
-		res = tb.Ite(tb.Eq(idx, tb.Const(64, uint64(i))), base[i].(*term.T), res)
+	// table composition: the index is itself the result of a constant-table lookup
+	key := idx
+	if key.Op == term.OZExt {
+		key = key.A
 	}
-	return res
+	if p, ok := ex.prov[key]; ok {
+		comp := make([]Value, len(p.table))
+		good := true
+		for i, e := range p.table {
+			c := e.(*term.T)
+			if c.Op != term.OConst || c.V >= uint64(len(base)) {
+				good = false
+				break
+			}
+			comp[i] = base[c.V]
+		}
+		if good {
+			return ex.tableLookup(comp, p.idx)
+		}
+	}
+	if idx.Op == term.OIte {
+		// index is a case tree over constants: push the load through the leaves
+		if r, ok := ex.loadThroughLeaves(base, idx, 0); ok {
+			if id, ok := ex.tb.BitTreeIdentity(r); ok {
+				return id
+			}
+			return r
+		}
+	}
+	return ex.tableLookup(base, idx)
+}
+
+// tableLookup selects base[idx] (idx known in range) and records provenance
+// for constant tables so that chained lookups compose.
+func (ex *Exec) tableLookup(base []Value, idx *term.T) *term.T {
+	allConst := true
+	identity := true
+	for i, e := range base {
+		c := e.(*term.T)
+		if c.Op != term.OConst {
+			allConst = false
+			identity = false
+			break
+		}
+		if c.V != uint64(i) {
+			identity = false
+		}
+	}
+	w := int(base[0].(*term.T).W)
+	if identity && len(base) <= 1<<uint(w) {
+		// base[i] == i for every in-range index: the result is the index itself
+		if int(idx.W) >= w {
+			return ex.tb.Extract(idx, w-1, 0)
+		}
+		return ex.tb.ZExt(idx, w)
+	}
+	r := ex.tableTree(base, idx, 0, len(base), 63)
+	if allConst && r.Op == term.OIte {
+		ex.prov[r] = provRec{idx: idx, table: base}
+	}
+	return r
+}
+
+// tableTree builds a balanced decision tree over the index bits selecting
+// base[lo..hi); identical subtrees are shared by hash-consing. The index is
+// known to be in range.
+func (ex *Exec) tableTree(base []Value, idx *term.T, lo, hi int, bit int) *term.T {
+	if hi-lo == 1 {
+		return base[lo].(*term.T)
+	}
+	// find the highest bit that distinguishes lo..hi-1
+	for bit >= 0 && (uint64(lo)>>uint(bit)) == (uint64(hi-1)>>uint(bit)) {
+		bit--
+	}
+	mid := int((uint64(hi-1) >> uint(bit)) << uint(bit))
+	tb := ex.tb
+	c := tb.Eq(tb.Extract(idx, bit, bit), tb.Const(1, 1))
+	return tb.Ite(c, ex.tableTree(base, idx, mid, hi, bit-1), ex.tableTree(base, idx, lo, mid, bit-1))
 }
 
 // indexCheck decides 0 <= idx < n and panics (interpreted) otherwise.
@@ -781,6 +869,9 @@ func (ex *Exec) runFrame(fr *frame) {
 		jumped := false
 		for _, in := range b.Instrs[nphi:] {
 			ex.steps++
+			if ex.steps&0xffff == 0 && !ex.sh.Deadline.IsZero() && time.Now().After(ex.sh.Deadline) {
+				panic(pathAbort{"budget", "run deadline exceeded inside a path" + ex.where()})
+			}
 			if ex.steps > ex.sh.InstrBudget {
 				panic(pathAbort{"budget", "instruction budget exceeded" + ex.where()})
 			}
@@ -1625,3 +1716,24 @@ func (ex *Exec) convert(from, to types.Type, v Value) Value {
 }
 
 var _ = math.MaxInt64
+
+func (ex *Exec) loadThroughLeaves(base []Value, idx *term.T, depth int) (*term.T, bool) {
+	if idx.Op == term.OConst {
+		if idx.V >= uint64(len(base)) {
+			return nil, false
+		}
+		return base[idx.V].(*term.T), true
+	}
+	if idx.Op != term.OIte || depth > 300 {
+		return nil, false
+	}
+	a, ok := ex.loadThroughLeaves(base, idx.B, depth+1)
+	if !ok {
+		return nil, false
+	}
+	b, ok := ex.loadThroughLeaves(base, idx.C, depth+1)
+	if !ok {
+		return nil, false
+	}
+	return ex.tb.Ite(idx.A, a, b), true
+}
